@@ -13,9 +13,11 @@ import json, os, re, shutil, subprocess, sys, tempfile, time, glob, hashlib, col
 
 VERIF = os.path.dirname(os.path.dirname(os.path.abspath(__file__)))
 REPO = os.environ.get("VERIF_REPO", "/repo")
+# where evidence/ and replays/ are written (redirected when a check is run against a scratch copy of the library)
+OUT = os.environ.get("VERIF_OUT", VERIF)
 SPEC = os.path.join(VERIF, "spec")
 HARNESS = os.path.join(VERIF, "harness")
-BUILD = os.path.join(VERIF, "build")
+BUILD = os.environ.get("VERIF_BUILD", os.path.join(VERIF, "build"))
 NCPU = os.cpu_count() or 4
 GOENV = dict(os.environ, GOFLAGS="-mod=mod", GOPROXY="off", GOSUMDB="off", GOTOOLCHAIN="local")
 
